@@ -22,13 +22,19 @@ import time
 
 from ..core import Ctx, canon, digest
 from ..forkpool import prepare_imports, run_cases
-from ..lattice import EMBEDDINGS, ORIGIN0, OffLattice
+from fractions import Fraction as F
+
+from ..lattice import EMBEDDINGS, ORIGIN0, Emb, OffLattice
 from .. import tlc
 
 SUB = 1024                 # quanta per lattice unit (cells are dyadic fractions: exact)
 DEN = 10000                # ratios x 10^4
 U = 4                      # lattice units per grid square of the examples (so quarters of a square are integral)
-EMB_ORDER = ORIGIN0        # the die's origin is (0,0): every embedding without offset
+# the die's origin is (0,0): every embedding without offset; plus two small magnitudes (lattice unit 1e-5 and 1e-6, dies
+# of 1e-4 .. 1e-5): GEKKO's feasibility tolerance is absolute, so a constraint written in length or area units is only
+# seen to be violated when the numbers are small
+EMBS = {**EMBEDDINGS, "e5": Emb("e5", F(1, 10 ** 5))}
+EMB_ORDER = ORIGIN0 + ["micro", "e5"]
 
 
 # ------------------------------------------------------------------------------------------------ cases
@@ -197,7 +203,7 @@ def run_case(case: dict) -> dict:
     from frame.allocation.allocation import Allocation
     import tools.glbfloor.optimization as opt
 
-    emb = EMBEDDINGS[case["emb"]]
+    emb = EMBS[case["emb"]]
     step, off = float(emb.step), float(emb.off)
     q = lambda v: int(round((float(v) - off) / step * SUB))                  # noqa: E731
     Rectangle.undefine_epsilon()
@@ -316,7 +322,7 @@ def run_extract_case(case: dict) -> dict:
     from frame.die.die import Die
     import tools.glbfloor.optimization as opt
 
-    emb = EMBEDDINGS[case["emb"]]
+    emb = EMBS[case["emb"]]
     step, off = float(emb.step), float(emb.off)
     q = lambda v: int(round((float(v) - off) / step * XS))                   # noqa: E731
     inst, sol, den = case["inst"], case["sol"], case["den"]
